@@ -181,12 +181,13 @@ def d4_6(ctx):
                 for t in tgts:
                     if isinstance(t, ast.Subscript) and (attr_path(t.value) or "").endswith("._cfg") and ctx.folder.eval(t.slice, fi.module) == "connection_size":
                         writers.append((fi, n, ctx.folder.eval(n.value, fi.module)))
-    init_v = None
-    for n in walk(drv.methods["__init__"]):
-        if isinstance(n, ast.Dict):
-            for k, v in zip(n.keys, n.values):
-                if k is not None and ctx.folder.eval(k, drv.module) == "connection_size":
-                    init_v = ctx.folder.eval(v, drv.module)
+    from .common import initial_cfg
+
+    cfg0, why = initial_cfg(ctx)  # (what the constructor leaves in _cfg, however it assembles it)
+    if cfg0 is None:
+        ctx.undecided(ckey(drv.key + ".__init__", "connection_size"), drv.methods["__init__"], why)
+        return
+    init_v = cfg0.get("connection_size")
     ctx.check(isinstance(init_v, int) and 0 < init_v <= sp["size_mask_32"], ckey(drv.key + ".__init__", "connection_size"), drv.methods["__init__"], f"extended size {init_v} fits 16 bits", f"configured connection size {init_v!r} does not fit the 16-bit size field of the Large Forward Open", value=init_v)
     ok = len(writers) == 1 and writers[0][0].qualname == "with_forward_open.wrapped" and isinstance(writers[0][2], int) and 0 < writers[0][2] <= sp["size_mask_16"]
     ctx.check(ok, ckey(drv.key, "writers:connection_size"), writers[0][1] if writers else drv.node, f"only the fallback writes the size ({writers[0][2] if writers else None} fits 9 bits)",
@@ -244,3 +245,12 @@ def d4_8(ctx):
         ctx.check(wit is None, ckey(fi, f"size-then-open#{i}" if i else "size-then-open"), w.ast, f"`{src(w.ast)}` is followed by {sorted(negotiators)} on every path to the decorated operation",
                   f"`{src(w.ast)}` can reach the decorated operation without a Forward Open after it (path lines {[p.lineno for p in (wit or []) if p.lineno]}): the target was asked for the previous size "
                   f"(the 9-bit field of the standard request truncates it) while requests are then sized for the new one", negotiators=sorted(negotiators))
+
+
+# reads are planned (plain, grouped or by fragments) against `connection_size`: a size the target was never asked for makes replies
+# of existing tags overflow the connection - the same obligations decide C01 ("exactly what the controller holds" for tags within
+# a few bytes of the fallback size)
+from .C10 import d10_2 as _d10_2  # noqa: E402
+
+rule("C01", "D1.23", "T-ORDER", floor=1)(d4_8)
+rule("C01", "D1.24", "T-ABSTRACT-EXEC", floor=19)(_d10_2)
